@@ -4,6 +4,7 @@ import (
 	"bytes"
 	"encoding/json"
 	"fmt"
+	"strings"
 	"time"
 
 	abci "github.com/cometbft/cometbft/abci/types"
@@ -301,13 +302,14 @@ func c09FaultEnum(r *mc.Run, w *enga.World, path []enga.ABlock, b enga.ABlock) {
 // child of the recorded head: ProcessProposal must reject it, its message must fail when
 // the block is finalised anyway, and the head must stay where it is.
 func c09Stale(r *mc.Run, w *enga.World, path []enga.ABlock) {
-	for _, variant := range []string{"committed-payload-again", "undecided-sibling", "undecided-sibling-verified-last"} {
+	for _, variant := range []string{"committed-payload-again", "undecided-sibling", "undecided-sibling-verified-last", "fresh-child-claiming-the-verified-hash"} {
 		x, err := w.Fork()
 		must(err)
 		viol := func(cls, msg string) {
 			r.Violate(mc.Violation{Class: cls + ":" + variant, Msg: fmt.Sprintf("%s | stale proposal %s | history %v", msg, variant, aPath(path)), Detail: engaDetail{Path: path, Note: "stale proposal " + variant}}, nil)
 		}
 		blk := &sim.Block{TimeDelta: time.Second}
+		x.N.EL.ResetCalls()
 		txA, pA, err := x.N.BuildEthBlockTx(sim.EthBlockOpts{})
 		must(err)
 		txB, pB, err := x.N.BuildEthBlockTx(sim.EthBlockOpts{Rehash: true, MutatePayload: func(p *goatmodtypes.ExecutionPayload) { p.Timestamp++ }})
@@ -320,7 +322,7 @@ func c09Stale(r *mc.Run, w *enga.World, path []enga.ABlock) {
 		}
 		okA, okB := true, true
 		switch variant {
-		case "committed-payload-again":
+		case "committed-payload-again", "fresh-child-claiming-the-verified-hash":
 			okA = accept([][]byte{txA})
 		case "undecided-sibling":
 			okB = accept([][]byte{txB})
@@ -328,6 +330,17 @@ func c09Stale(r *mc.Run, w *enga.World, path []enga.ABlock) {
 		case "undecided-sibling-verified-last":
 			okA = accept([][]byte{txA})
 			okB = accept([][]byte{txB})
+		}
+		if variant == "undecided-sibling-verified-last" {
+			// the engine is told a head at the end of a *finalised* block only: while accepted
+			// proposals are waiting to be decided (give any background work time to show) the
+			// only engine calls are the payload checks of ProcessProposal
+			time.Sleep(150 * time.Millisecond)
+			for _, c := range x.N.EL.Calls() {
+				if strings.Contains(c.Method, "forkchoice") {
+					viol("engine-told-a-head-before-any-block-was-finalised", fmt.Sprintf("%s head %x after ProcessProposal only", c.Method, c.Head))
+				}
+			}
 		}
 		if !okA || !okB {
 			// a sibling that differs in its timestamp only is as well-formed as the original
@@ -353,6 +366,14 @@ func c09Stale(r *mc.Run, w *enga.World, path []enga.ABlock) {
 		blk2 := &sim.Block{TimeDelta: time.Second}
 		txS, _, err := x.N.BuildEthBlockTx(sim.EthBlockOpts{Payload: stale})
 		must(err)
+		if variant == "fresh-child-claiming-the-verified-hash" {
+			// a well-formed child of the new head in every field the application checks itself,
+			// but claiming the block hash the engine answered VALID for a moment ago: only the
+			// engine ties the hash to the content, so it must be asked again
+			claimed := append([]byte{}, pA.BlockHash...)
+			txS, _, err = x.N.BuildEthBlockTx(sim.EthBlockOpts{MutatePayload: func(p *goatmodtypes.ExecutionPayload) { p.BlockHash = claimed }})
+			must(err)
+		}
 		pr, perr := x.N.Process(blk2, [][]byte{txS})
 		r.Transitions.Add(1)
 		r.Validated.Add(1)
